@@ -5,6 +5,7 @@ import (
 	"encoding/json"
 	"errors"
 	"fmt"
+	"github.com/mitchellh/copystructure"
 	"google.golang.org/protobuf/types/known/wrapperspb"
 	"reflect"
 	"sort"
@@ -105,6 +106,36 @@ type dTagHolder struct {
 	Attrs tagMap
 	L     dLeaf
 	N     int
+}
+
+// copyProbe: a type with a copier registered with copystructure; the copier is called while
+// encrypt.Filter.Process deep-copies the event, i.e. in the middle of Process
+type copyProbe struct{ N int }
+
+type dProbe struct {
+	P copyProbe
+	L dLeaf
+	N int
+}
+
+var (
+	copyProbeEvent *eventlogger.Event // the event Process is working on
+	copyProbeFail  bool
+	copyProbeSaw   string
+)
+
+func init() {
+	copystructure.Copiers[reflect.TypeOf(copyProbe{})] = func(v interface{}) (interface{}, error) {
+		if e := copyProbeEvent; e != nil {
+			if b, ok := e.Format("pre"); !ok || string(b) != "abc" {
+				copyProbeSaw = fmt.Sprintf("while Process was copying the event, the event it was given had no %q entry in its format table (found=%v %q): Process took it away", "pre", ok, b)
+			}
+		}
+		if copyProbeFail {
+			return nil, errors.New("copier failed")
+		}
+		return v, nil
+	}
 }
 
 // a Taggable struct whose tag list is empty, and a struct that holds one before a Taggable map holder
@@ -365,7 +396,7 @@ func deepShapes(p *prng, n int, st *stats, oracle func(string, ...any)) {
 		kind := ""
 		curTags = nil
 		f.IgnoreTypes = nil
-		switch p.intn(29) {
+		switch p.intn(30) {
 		case 0:
 			l := mkLeaf(c, p)
 			payload, kind = &l, "ptr-struct"
@@ -464,6 +495,11 @@ func deepShapes(p *prng, n int, st *stats, oracle func(string, ...any)) {
 			l := mkLeaf(c, p)
 			psp, pbp, plp, ppp := &ps, &pb, &l, &pp
 			payload, kind = &dPP{PS: &psp, PB: &pbp, PT: &plp, PP: &ppp, N: 1}, "pointers-to-pointers"
+		case 29:
+			// a value of a type with a registered copier (copystructure's extension point): the copier runs in
+			// the middle of Process and looks at the event Process was given; one in three fails
+			copyProbeFail = p.chance(1, 3)
+			payload, kind = &dProbe{P: copyProbe{N: 1}, L: mkLeaf(c, p), N: 1}, "copy-probe"
 		case 28:
 			// a Taggable struct (one that names no pointers) next to a struct holding a Taggable map: what the
 			// filter does for the first must not change what it does for its siblings
@@ -546,6 +582,8 @@ func deepShapes(p *prng, n int, st *stats, oracle func(string, ...any)) {
 					er = fmt.Errorf("PANIC: %v", r)
 				}
 			}()
+			copyProbeEvent, copyProbeSaw = e, ""
+			defer func() { copyProbeEvent = nil }()
 			return f.Process(ctx, e)
 		}()
 		after, _ := json.Marshal(payload)
@@ -557,6 +595,13 @@ func deepShapes(p *prng, n int, st *stats, oracle func(string, ...any)) {
 		}
 		if string(before) != string(after) {
 			once("C10", kind, "Process modified the payload it was given")
+		}
+		if copyProbeSaw != "" {
+			once("C10", kind, copyProbeSaw)
+		}
+		// whatever the outcome (success, error, a failing copier): the event Process was given still has its table
+		if b, ok := e.Format("pre"); !ok || string(b) != "abc" || len(e.Formatted) != 3 {
+			once("C10", kind, fmt.Sprintf("after Process returned (err=%v) the event it was given has lost (part of) its format table: %d entries, pre=%q", err, len(e.Formatted), b))
 		}
 		for _, t := range curTags {
 			if (t.Pointer == "/list/1/name" || t.Pointer == "/list/7" || t.Pointer == "/list/x/name") && err == nil {
